@@ -6,7 +6,7 @@ use vbase::gens;
 use vbase::refjson;
 use vbase::{ensure, fail};
 
-pub const RULE: &str = "cases are numeric values and raw-number literals: f32 bit patterns (2^32 exhaustive in the thorough tier; in quick every exponent x boundary mantissas plus a strided+random sample), f64 bit patterns (every binary exponent x mantissa patterns {0,1,all-ones,single bits,random}, +-3 ulps around every power of two and ten, subnormal boundaries, random), all u8/i8/u16/i16 values (exhaustive), boundary and random u32..u128/i32..i128; each value is serialized (to_string, to_vec, and through to_value/Value::from + to_string) and read back into the same type — bare, behind whitespace, and inside pretty-printed tuples/arrays/maps — the bits must be identical and the text a number by the reference grammar. Raw numbers: literals of the C07 generator and malformed candidates, bare and quoted; a RawNumber deserializes iff the literal satisfies the number grammar, as_str()/to_string reproduce it verbatim, as_i64/as_u64/as_f64 equal std parsing; in a DOM parsed with use_rawnumber every literal is reproduced verbatim, also after the containers holding it were edited, cloned, or the number was moved. Non-trivial = float whose shortest representation has >= 2 significant digits or an exponent, or integer of >= 10 digits, or any raw literal that is not a plain short integer; distinct by (type, bits).";
+pub const RULE: &str = "cases are numeric values and raw-number literals: f32 bit patterns (2^32 exhaustive in the thorough tier; in quick every exponent x boundary mantissas plus a strided+random sample), f64 bit patterns (every binary exponent x mantissa patterns {0,1,all-ones,single bits,random}, +-3 ulps around every power of two and ten, subnormal boundaries, random), all u8/i8/u16/i16 values (exhaustive), boundary and random u32..u128/i32..i128; each value is serialized (to_string, to_vec, and through to_value/Value::from + to_string) and read back into the same type — bare, behind whitespace, and inside pretty-printed tuples/arrays/maps — the bits must be identical and the text a number by the reference grammar. Raw numbers: literals of the C07 generator and malformed candidates, bare and quoted; a RawNumber deserializes iff the literal satisfies the number grammar, as_str()/to_string reproduce it verbatim, as_i64/as_u64/as_f64 equal std parsing; in a DOM parsed with use_rawnumber every literal is reproduced verbatim, also after the containers holding it were edited, cloned, or the number was moved. Known finding F32 (C08/f32/readback/double-rounding): f32 values whose shortest text, read as f64 and narrowed once as C07 prescribes, is the adjacent f32 are counted and excluded; any other f32 read-back difference is a violation. Non-trivial = float whose shortest representation has >= 2 significant digits or an exponent, or integer of >= 10 digits, or any raw literal that is not a plain short integer; distinct by (type, bits).";
 pub const ASSUMPTIONS: &[&str] = &["Rust std float/integer parsing is exact", "reference number grammar (RFC 8259)"];
 
 fn nontrivial_text(s: &str) -> bool {
@@ -86,7 +86,17 @@ fn f32_case(x: f32, obs: &mut Obs) -> Result<(), Fail> {
     }
     ensure!(refjson::is_number(s.as_bytes()), "C08/f32/not-a-number", "to_string({x:?}f32) = {:?} is not a JSON number", s);
     let back: f32 = sonic_rs::from_str(&s).map_err(|e| Fail::new("C08/f32/readback", format!("{x:?} -> {s:?} -> Err({e})")))?;
-    ensure!(back.to_bits() == x.to_bits(), "C08/f32/readback", "{x:?}f32 (bits {:#x}) -> {:?} -> {back:?} (bits {:#x})", x.to_bits(), s, back.to_bits());
+    if back.to_bits() != x.to_bits() {
+        // Known finding F32: the text is the shortest decimal that identifies x among f32 values, but an f32
+        // target receives the f64 nearest to the text narrowed once (C07's rule); for about one value in
+        // 2^29 that f64 is a tie of two f32 values or lies beyond x's rounding interval. That class — and
+        // only that class — has its own signature: the reading side did exactly what C07 prescribes.
+        let by_rule = s.parse::<f64>().ok().map(|f| f as f32);
+        if by_rule.map(f32::to_bits) == Some(back.to_bits()) {
+            fail!("C08/f32/readback/double-rounding", "{x:?}f32 (bits {:#x}) -> {:?} -> {back:?} (bits {:#x}): the shortest f32 text, read as f64 and narrowed, is the adjacent f32", x.to_bits(), s, back.to_bits());
+        }
+        fail!("C08/f32/readback", "{x:?}f32 (bits {:#x}) -> {:?} -> {back:?} (bits {:#x})", x.to_bits(), s, back.to_bits());
+    }
     let pretty = sonic_rs::to_string_pretty(&(x, [x, x])).map_err(|e| Fail::new("C08/f32/ser-error", format!("{e}")))?;
     let (a, b): (f32, [f32; 2]) = sonic_rs::from_str(&pretty).map_err(|e| Fail::new("C08/f32/readback-pretty", format!("{x:?} -> {pretty:?} -> Err({e})")))?;
     ensure!([a, b[0], b[1]].iter().all(|y| y.to_bits() == x.to_bits()), "C08/f32/readback-pretty", "{x:?}f32 -> {pretty:?} -> ({a:?}, {b:?})");
